@@ -151,6 +151,7 @@ def run(ck):
     ck.rule("C08.R10", "FilterFn / DynFilterFn builder steps keep the predicate and the other hint (same-named field carry-over, as C13.R6)", floor=3)
     ck.rule("C08.R11", "EnvFilter publishes `never` only when it has no span directives, and `always` only for what the static directives (or a stored span matcher) enable", floor=3)
     ck.rule("C08.R12", "Layered decides `the value below me is the Registry` from that value's own type: a layer combined with and_then keeps its hint", floor=1)
+    ck.rule("C08.R13", "wrappers hand out type-identity answers (downcast_raw) with the right polarity, and a reload handle lets the per-layer-filter marker through (as C09.R2)", floor=8)
     ck.rule("C08.R8", "level hints and thresholds are compared by a correct total order (as C19.R1/R2/R4)", floor=60)
     ck.rule("C08.R1", "And/Or/Not: interest table sound w.r.t. enabled; hint is a sound bound", floor=6)
     ck.rule("C08.R2", "Option<F>: None is neutral, Some forwards", floor=4)
@@ -167,6 +168,8 @@ def run(ck):
     builder_carry_over(ck, F, "C08.R10", ("tracing_subscriber::filter::filter_fn::",))
     envfilter_interest(ck, F)
     inner_is_registry_rule(ck, F)
+    from rules import C09
+    C09.wrapper_rules(ck, F, rids={"R0": "C08.R13", "R1": "C08.R13", "R2": "C08.R13", "R3": "C08.R13"}, traits=["tracing_subscriber::subscribe::Subscribe"], only={"downcast_raw"})
     r1(ck, F)
     r2(ck, F)
     r3(ck, F)
